@@ -173,6 +173,9 @@ func (c03) Gen(tier string, seed int64) []fw.Unit {
 			add("decorated", d, 33, 0)
 		}
 	}
+	for _, fd := range foreignDigitStrings() {
+		add("foreign-digits", []byte(fd), 33, 0)
+	}
 	// random bytes
 	for i := 0; i < 100*scale; i++ {
 		n := 1 + r.Intn(80)
